@@ -551,6 +551,12 @@ fn usable_of(p: &Pkg, upto: usize, same_pkg: bool) -> Vec<(String, String, Strin
     for i in &p.ifaces[..upto] {
         let path = if same_pkg { i.name.clone() } else { p.iface_id(&i.name) };
         for (tname, def) in &i.types {
+            // `type a = b` (an alias of a named type) is never offered for `use` by another
+            // interface: recorded finding, wac's component type for an imported dependency
+            // re-encodes such a used alias structurally (invalid instance type or panic)
+            if matches!(def, TypeDef::Alias(Ty::Named(_))) {
+                continue;
+            }
             v.push((path.clone(), p.iface_id(&i.name), tname.clone(), matches!(def, TypeDef::Resource { .. })));
         }
     }
